@@ -121,7 +121,8 @@ type c10Case struct {
 	Before   int    `json:"requests_before"`
 	Running  bool   `json:"handlers_running"`
 	Trailing string `json:"trailing"`
-	Peer     string `json:"peer"` // silent | closes | not-reading
+	Peer     string `json:"peer"`           // silent | closes | not-reading
+	Lead     int    `json:"lead,omitempty"` // well-formed requests in the same segment, in front of the offending frame
 }
 
 type c10Run struct {
@@ -179,10 +180,19 @@ func c10Exec(cs c10Case) (*fw.Violation, *harness.Server) {
 	}
 	callsBefore := len(h.Calls)
 	goBefore := len(h.GoAways)
+	// requests the peer wrote right before the offending frame: the read loop has
+	// them forwarded (or not) when it meets the offence, the stream loop may lag
+	var lead []byte
+	for i := 0; i < cs.Lead; i++ {
+		id := x.newID()
+		x.opened = append(x.opened, id)
+		lead = peer.Headers(id, reqBlock(id, "GET"), peer.HeadersOpt{EndStream: true, EndHeaders: true, Pad: -1}).Append(lead)
+	}
 	ob := off.Make(x)
 	if ob == nil {
 		return nil, h // the offence needs a history this case does not have
 	}
+	ob = append(lead, ob...)
 	if strings.HasSuffix(cs.Trailing, "-same-segment") {
 		// the peer's next frames are already in the socket buffer behind the offending one
 		for i := 0; i < 140; i++ {
@@ -382,30 +392,32 @@ func runC10(c *fw.Ctx) {
 				}
 				for _, tr := range trailings {
 					for _, pr := range []string{"silent", "closes", "not-reading"} {
-						if item++; !c.Mine(item) {
-							continue
+						for _, lead := range []int{0, 1, 3} {
+							if item++; !c.Mine(item) {
+								continue
+							}
+							if c.Expired("C10") {
+								return
+							}
+							cs := c10Case{Offence: off.Name, Before: before, Running: running, Trailing: tr, Peer: pr, Lead: lead}
+							v, h := c10Exec(cs)
+							js, _ := json.Marshal(cs)
+							c.Eval(nt(true, js))
+							c.AddTransitions(int64(h.Events))
+							c.AddTraces(1)
+							c.State(fw.Hash(h.Digest()))
+							if v != nil {
+								c.Violate(*v)
+								c.Outcome(v.Rule)
+							} else {
+								c.Outcome("truthful-and-returns")
+							}
+							if sampled < 3 && before == 2 && tr == "request" {
+								sampled++
+								c.Sample(map[string]any{"case": cs, "events": h.EventLog})
+							}
+							h.Close()
 						}
-						if c.Expired("C10") {
-							return
-						}
-						cs := c10Case{Offence: off.Name, Before: before, Running: running, Trailing: tr, Peer: pr}
-						v, h := c10Exec(cs)
-						js, _ := json.Marshal(cs)
-						c.Eval(nt(true, js))
-						c.AddTransitions(int64(h.Events))
-						c.AddTraces(1)
-						c.State(fw.Hash(h.Digest()))
-						if v != nil {
-							c.Violate(*v)
-							c.Outcome(v.Rule)
-						} else {
-							c.Outcome("truthful-and-returns")
-						}
-						if sampled < 3 && before == 2 && tr == "request" {
-							sampled++
-							c.Sample(map[string]any{"case": cs, "events": h.EventLog})
-						}
-						h.Close()
 					}
 				}
 			}
